@@ -272,7 +272,7 @@ pub fn clone_from_panic<const NT: usize, const NS: usize>() {
         src_e = st_s.e;
     }
     arm(NS);
-    let panicked = guarded(|| tgt.clone_from(&src));
+    let panicked = guarded(|| Clone::clone_from(hv::raw_of_table(&mut tgt), hv::raw_of_table_ref(&src)));
     let q = any_id();
     // the target's old elements: dropped exactly once (the ledger asserts "at most once")
     assert!(drops(q) == st_t.mult(q) as u8);
